@@ -685,8 +685,28 @@ def stmt_start(pieces, si, k, lo):
             depth -= 1
         elif t.tkind == "punct" and t.text == ";" and depth == 0:
             return j
+        elif t.tkind == "punct" and t.text == "=>" and depth == 0:
+            return -j   # negative: start of a bare match-arm expression
         j -= 1
     return lo
+
+
+def arm_end(pieces, si, k):
+    """code position of the last token of the bare match-arm expression starting at k"""
+    depth = 0
+    j = k
+    while j < len(si):
+        t = pieces[si[j]]
+        if t.tkind == "punct" and t.text in OPEN:
+            depth += 1
+        elif t.tkind == "punct" and t.text in CLOSE:
+            if depth == 0:
+                return j - 1
+            depth -= 1
+        elif t.tkind == "punct" and t.text == "," and depth == 0:
+            return j - 1
+        j += 1
+    raise ExtractError("match arm without end")
 
 
 # ----------------------------------------------------------------------------------------
@@ -944,9 +964,14 @@ class Generator:
                     # position: the significant token just before the removed `.await`
                     k = max(x for x in range(len(si)) if si[x] < aw)
                     ss = stmt_start(pieces, si, k, body_k + 1)
+                    arm = ss < 0
+                    ss = abs(ss)
                     expr = " ".join(CLAUSE_RE.sub("", l).strip() for l in cancel_block.lines).strip()
                     cname = _cancel_name(cancel_block) or f"{iid}.cancel"
                     expr_lines = [f"        assert({expr}); //# {cname}.{n}" + (f" tags={','.join(_cancel_tags(cancel_block, tags))}" if _cancel_tags(cancel_block, tags) else "")]
+                    if arm:
+                        expr_lines = ["        {"] + expr_lines
+                        add_inj(si[arm_end(pieces, si, ss)], "after", ["        }"], f"{cname}.{n}")
                     add_inj(si[ss], "before", expr_lines, f"{iid}.cancel.{n}")
             elif any(bk.where == "cancel" for bk in blocks):
                 pass  # a cancel clause without awaits is harmless
@@ -964,14 +989,15 @@ class Generator:
                 for n, aw in enumerate(awaits, 1):
                     k = max(x for x in range(len(si)) if si[x] < aw)
                     ss = stmt_start(pieces, si, k, body_k + 1)
-                    add_canary(si[ss], "before", f"cancel point {n}")
+                    if ss >= 0:
+                        add_canary(si[ss], "before", f"cancel point {n}")
             if opts.get("trusted"):
                 kill(pieces, range(body_open, body_close + 1))
                 pieces[body_open] = Piece("{ unimplemented!() }", "rw", pieces[body_open].line, rule="TRUSTED", tkind="rwtext")
                 pieces.insert(0, Piece("#[verifier::external_body]\n", "rw", first_line, rule="TRUSTED", tkind="attr"))
                 self.applied.add("TRUSTED", file, first_line, f"body of {path} not verified; its contract is assumed")
-                # indices shifted by one
-                inj = {(k[0] + 1, k[1]): v for k, v in inj.items()}
+                # only the contract survives; indices shifted by one
+                inj = {(k[0] + 1, k[1]): v for k, v in inj.items() if k == (body_open, "before")}
         else:
             for bk in blocks:
                 if bk.where == "spec" and loc["kind"] == "static":
